@@ -49,10 +49,7 @@ def asm_text(tokens, eng):
         # val_text: hex digits or one handle
         m = _HANDLE.fullmatch(val_text)
         if m:
-            s = eng.handles[val_text]
-            lit = "0x%08X" % (MAGIC_BASE + len(eng.magic) + 1)
-            eng.magic[lit.lower()] = s
-            return lit
+            return eng.new_magic(eng.handles[val_text])
         if _HEX.fullmatch(val_text):
             return "0x" + val_text
         raise core.Inconclusive(f"numeral token of unexpected form {val_text!r}")
@@ -69,9 +66,7 @@ def asm_text(tokens, eng):
         elif n == "TAddr":
             v = t.value
             if type(v) is SymInt:
-                lit = "0x%08X" % (MAGIC_BASE + len(eng.magic) + 1)
-                eng.magic[lit.lower()] = v
-                out.append(lit)
+                out.append(eng.new_magic(v))
             else:
                 out.append("0x%05X" % v)
             sig.append("a")
